@@ -42,10 +42,19 @@ eav_setup (eav_t *eav)
     case EAV_RFC_822:   eav->ascii_cb = is_822_email;    break;
     case EAV_RFC_5321:  eav->ascii_cb = is_5321_email;   break;
     case EAV_RFC_5322:  eav->ascii_cb = is_5322_email;   break;
-    case EAV_RFC_6531:
+    case EAV_RFC_6531: {
+        /* switch to UTF-8 only when the resolver context exists: after a
+         * refused setup the mode confirmed before stays in force.
+         */
+        int rc = init_idn (eav);
+
+        if (rc != EEAV_NO_ERROR)
+            return rc;
+
         eav->utf8 = true;
         eav->utf8_cb = is_6531_email;
-        return init_idn (eav);
+        return EEAV_NO_ERROR;
+    }
     default:
         eav->errcode = EEAV_INVALID_RFC;
         return EEAV_INVALID_RFC;
